@@ -61,11 +61,48 @@ def obligations(tier):
            harness="harness/h_codec.py", func="tuples_ok", timeout=to),
         Ob("C08.hierarchy", "X", "groups: path, url (None or not), member order, nested groups (empty or not), dims (str/list/()), 0-d..2-d variables, time variables, attrs",
            HIER, bounds="forall int64 tokens t0..t3, structure flags nested/empty/with_time/url_none", harness="harness/h_codec.py", func="hierarchy_ok", timeout=to),
+        Ob("C08.empty", "E", "arrays without elements keep dtype and shape (rank 0..2, sides 0..3): the only inputs whose round trip does not depend on any element value, "
+           "hence a finite domain enumerated completely through the real encoder, json and decoder", ENCF,
+           bounds="all shapes of rank <= 2 with sides in {0, 1, 3} containing a zero-length side x 7 dtypes (b, i, u, f, M, m, U)", call="props.c08:ob_empty"),
         Ob("C08.e2e", "E", "witness replay with the real numpy and json: every variable/attribute of synthesised level 1.1 and 1.5 image groups with extreme field values "
            "survives encode -> text -> decode in a fresh interpreter process (self-contained document)",
            ["ceos_alos2.sar_image.caching:encode", "ceos_alos2.sar_image.caching:decode"], bounds="concrete replay (not the deciding step)", call="props.c08:ob_e2e", wall_timeout=600),
     ]
     return obs
+
+
+def ob_empty(tier):
+    import json
+
+    import numpy as np
+
+    from ceos_alos2.sar_image.caching import decoders as DEC
+    from ceos_alos2.sar_image.caching import encoders as ENC
+
+    shapes = [(0,)] + [(a, b) for a in (0, 1, 3) for b in (0, 1, 3) if a == 0 or b == 0]
+    dtypes = ["bool", "int64", "uint16", "float64", "datetime64[ns]", "timedelta64[ms]", "<U3"]
+    bad, n = [], 0
+    for shape in shapes:
+        for dt in dtypes:
+            a = np.empty(shape, dtype=dt)
+            n += 1
+            try:
+                enc = ENC.encode_array(a)
+                back = DEC.decode_array(json.loads(json.dumps(ENC.preprocess(enc)), object_hook=DEC.postprocess), records_per_chunk=1)
+                got = (tuple(back.shape), str(back.dtype))
+            except Exception as e:  # noqa: BLE001
+                got = f"{type(e).__name__}: {str(e)[:80]}"
+            want = (shape, str(a.dtype) if a.dtype.kind != "U" else got[1] if isinstance(got, tuple) and str(got[1]).startswith("<U") else str(a.dtype))
+            if got != want:
+                bad.append({"shape": list(shape), "dtype": dt, "decoded": got})
+    res = {"verdict": "violated" if bad else "discharged", "queries": n, "replays": n}
+    if bad:
+        res["cex"] = bad[:6]
+        # finding key: the set of shape classes that fail (leading zero-length side with further sides / anything else)
+        classes = sorted({"shape(0,n)" if (len(b["shape"]) == 2 and b["shape"][0] == 0 and isinstance(b["decoded"], (tuple, list)) and tuple(b["decoded"][0]) == (0,))
+                          else f"shape{tuple(b['shape'])}:{b['dtype']}" for b in bad})
+        res["finding_key"] = "C08.empty:" + ",".join(classes)[:200]
+    return res
 
 
 def ob_e2e(tier):
